@@ -5,6 +5,7 @@ go 1.23.6
 require (
 	github.com/aptpod/iscp-go v0.0.0
 	github.com/google/uuid v1.3.0
+	github.com/gorilla/websocket v1.4.2
 )
 
 require golang.org/x/mod v0.23.0 // indirect
